@@ -19,10 +19,11 @@ def occE (y : Name) (bound : List Name) : Expr → Prop
   | .for i c s b => occE y bound i ∨ occE y bound c ∨ occE y bound s ∨ occE y bound b
   | .forIn x coll b => occE y bound coll ∨ occE y (x :: bound) b
   | .call f args => occEs y bound args ∨ occE y bound f
+  | .pipe l f args => occEs y bound args ∨ occE y bound l ∨ occE y bound f
   | .builtin _ args | .arrLit _ args _ | .arrNew args _ | .record _ args | .tuple args
-  | .enumRec _ _ args => occEs y bound args
+  | .enumRec _ _ args | .range args => occEs y bound args
   | .lam fn => occF y bound fn
-  | .index a idx => occE y bound a ∨ occEs y bound idx
+  | .index a idx | .slice a idx => occE y bound a ∨ occEs y bound idx
   | .field e _ => occE y bound e
   | .matchE e gs => occE y bound e ∨ occGuards y bound gs
   | .ifLet g e els => occE y bound e ∨ occGuard y bound g ∨ occE y bound els
@@ -121,12 +122,15 @@ theorem mem_fvE (y : Name) (bound acc : List Name) : ∀ e : Expr,
     simp only [fvE, occE, mem_fvE y bound _ b, mem_fvE y bound _ s, mem_fvE y bound _ c, mem_fvE y bound acc i, or_assoc]
   | .forIn x coll b => by simp only [fvE, occE, mem_fvE y (x :: bound) _ b, mem_fvE y bound acc coll, or_assoc]
   | .call f args => by simp only [fvE, occE, mem_fvE y bound _ f, mem_fvEs y bound acc args, or_assoc]
+  | .pipe l f args => by simp only [fvE, occE, mem_fvE y bound _ f, mem_fvE y bound _ l, mem_fvEs y bound acc args, or_assoc]
   | .builtin _ args => by simp only [fvE, occE, mem_fvEs y bound acc args]
   | .arrLit _ args _ => by simp only [fvE, occE, mem_fvEs y bound acc args]
   | .arrNew args _ => by simp only [fvE, occE, mem_fvEs y bound acc args]
   | .record _ args => by simp only [fvE, occE, mem_fvEs y bound acc args]
   | .tuple args => by simp only [fvE, occE, mem_fvEs y bound acc args]
   | .enumRec _ _ args => by simp only [fvE, occE, mem_fvEs y bound acc args]
+  | .range args => by simp only [fvE, occE, mem_fvEs y bound acc args]
+  | .slice a idx => by simp only [fvE, occE, mem_fvEs y bound _ idx, mem_fvE y bound acc a, or_assoc]
   | .lam fn => by simp only [fvE, occE, mem_fvF y bound acc fn]
   | .index a idx => by simp only [fvE, occE, mem_fvEs y bound _ idx, mem_fvE y bound acc a, or_assoc]
   | .field e _ => by simp only [fvE, occE, mem_fvE y bound acc e]
@@ -200,12 +204,15 @@ theorem nodup_fvE (bound acc : List Name) (h : acc.Nodup) : ∀ e : Expr, (fvE b
     exact nodup_fvE bound _ (nodup_fvE bound _ (nodup_fvE bound _ (nodup_fvE bound acc h i) c) s) b
   | .forIn x coll b => by simp only [fvE]; exact nodup_fvE _ _ (nodup_fvE bound acc h coll) b
   | .call f args => by simp only [fvE]; exact nodup_fvE bound _ (nodup_fvEs bound acc h args) f
+  | .pipe l f args => by simp only [fvE]; exact nodup_fvE bound _ (nodup_fvE bound _ (nodup_fvEs bound acc h args) l) f
   | .builtin _ args => by simp only [fvE]; exact nodup_fvEs bound acc h args
   | .arrLit _ args _ => by simp only [fvE]; exact nodup_fvEs bound acc h args
   | .arrNew args _ => by simp only [fvE]; exact nodup_fvEs bound acc h args
   | .record _ args => by simp only [fvE]; exact nodup_fvEs bound acc h args
   | .tuple args => by simp only [fvE]; exact nodup_fvEs bound acc h args
   | .enumRec _ _ args => by simp only [fvE]; exact nodup_fvEs bound acc h args
+  | .range args => by simp only [fvE]; exact nodup_fvEs bound acc h args
+  | .slice a idx => by simp only [fvE]; exact nodup_fvEs bound _ (nodup_fvE bound acc h a) idx
   | .lam fn => by simp only [fvE]; exact nodup_fvF bound acc h fn
   | .index a idx => by simp only [fvE]; exact nodup_fvEs bound _ (nodup_fvE bound acc h a) idx
   | .field e _ => by simp only [fvE]; exact nodup_fvE bound acc h e
